@@ -156,6 +156,13 @@ func vServerSession(tok, payload []byte, key [4]byte) []byte {
 	if herr != nil || vConcrete(vIte(vEqBytes(df.Payload, payload), 1, 0)) != 1 {
 		return vSessProblem(obs, "helper-roundtrip-error")
 	}
+	// ... and one through a Helper of this session's own with ANOTHER coder (here: the identity
+	// codec), as connections with different compression settings in one process have
+	ownHelper := Helper{Compressor: func(w io.Writer) Compressor { return vIdComp{w} }, Decompressor: func(r io.Reader) Decompressor { return &vIdDecomp{r: r} }}
+	of, oerr := ownHelper.CompressFrame(ws.NewTextFrame(append([]byte{}, payload...)))
+	if oerr != nil || vConcrete(vIte(vEqBytes(of.Payload, payload), 1, 0)) != 1 {
+		return vSessProblem(obs, "own-helper-output-differs")
+	}
 	// the application's own reusable output buffer (capacity = a pool size class) sent on the
 	// server side: it stays the application's, whatever other sessions do with the pools
 	own := make([]byte, 128)
